@@ -5,7 +5,9 @@ ID = "C09"
 SHRINK = False
 RULE = ("executions under the controlled scheduler (verif hooks in sync2.Map and keyedmutex.go: one goroutine runnable at a time, a schedule is a list of goroutine ids): "
         "every schedule with at most 2 preemptions of a catalogue of 2-3 goroutine programs (first-use race on one key, two keys, try-lock against holder, readers/writer) "
-        "plus random programs of 2-4 goroutines x 1-3 lock/unlock pairs over 1-3 keys under random schedules; API-level inv/res traces must be accepted by the Lean keyed-mutex "
+        "ClearKey of never-used keys racing first uses, a cleared key re-acquired while another key's first use rebuilds the map) plus random programs of 2-4 goroutines x 1-3 lock/try-lock/unlock/clear operations "
+        "over 1-3 keys under random schedules; native, truly parallel runs (3 goroutines, shared keys, a stream of never-seen keys, ClearKey of private keys), also under the race detector; a ClearKey that overlaps "
+        "another call on its key puts the rest of the scenario outside the property (not judged); API-level inv/res traces must be accepted by the Lean keyed-mutex "
         "transition system and satisfy the occupancy predicate; non-trivial = at least 2 goroutines acquiring")
 ASSUMPTIONS = ["the map inside the keyed mutex is atomic (MapAtomic: justified by C04; its concurrent half is not proved)", "sync.Mutex / sync.RWMutex by contract",
                "'never delays' is proved as 'never disables' (no time bound)", "under the controlled scheduler a goroutine parks before calling Lock, so 'pending writer blocks new readers' is not exercised"]
